@@ -936,3 +936,126 @@ func init() {
 			}
 		}})
 }
+
+func init() {
+	register(&Rule{ID: "C10.R10", Props: []string{"C10", "C02"}, Engine: "E3",
+		Title:   "every SACK that is not older than the ack point updates the peer window: processAcknowledgement reports 'not processed' (which makes handleSack return before applying a_rwnd) only under 'Cumulative TSN Ack is behind the Cumulative TSN Ack Point' — a repeated, gap-free SACK is exactly how a receiver announces a window that shrank (or reopened), and skipping it leaves the sender transmitting against a stale window",
+		MinInst: 2,
+		Run: func(c *RuleCtx) {
+			fn := c.Fn("Association.processAcknowledgement")
+			cum := c.field("Association", "cumulativeTSNAckPoint")
+			proc := c.field("acknowledgementResult", "processed")
+			gt := c.Fn("sna32GT")
+			ks := keyer{}
+			n := 0
+			for _, g := range c.P.Region(fn) {
+				if g != fn {
+					continue
+				}
+				for _, r := range allReturns(g) {
+					rs := retResults(r)
+					if len(rs) != 2 || !isNilConst(rs[1]) {
+						continue // error returns are reported to the caller as errors
+					}
+					// can 'processed' be false in the returned struct?
+					maybeFalse := true
+					switch x := rs[0].(type) {
+					case *ssa.UnOp:
+						if al, ok := x.X.(*ssa.Alloc); ok {
+							forEachInstr(g, func(in ssa.Instruction) {
+								if st, isSt := in.(*ssa.Store); isSt && fieldOfAddr(st.Addr) == proc && IsConstBool(true)(st.Val) {
+									if fa, isFa := st.Addr.(*ssa.FieldAddr); isFa && fa.X == ssa.Value(al) && InstrDominates(in, r) {
+										maybeFalse = false
+									}
+								}
+							})
+						}
+					}
+					n++
+					if !maybeFalse {
+						c.Ok(ks.key("processed-result"), c.Pos(r), "returns processed=true")
+						continue
+					}
+					ok := DominatedByExt(r, CallCond(gt, true, IsLoadOf(cum), AnyV))
+					c.Check(ok, ks.key("unprocessed-only-if-stale"), c.Pos(r), "'not processed' only for a SACK older than the ack point", "processAcknowledgement reports a SACK as not processed although it is not older than the ack point ("+c.describeConds(r)+"): its a_rwnd is never applied")
+				}
+			}
+			c.Check(n >= 2, "result-returns", c.P.Pos(fn.Pos()), fmt.Sprintf("%d successful return(s)", n), "processAcknowledgement has fewer than two successful returns")
+		}})
+
+	register(&Rule{ID: "C19.R14", Props: []string{"C19", "C04", "C09"}, Engine: "E3-sibling",
+		Title:   "stopping a timer always takes it out of the started state: in rtxTimer.stop/close and ackTimer.stop/close the state store is not conditioned on what timer.Stop() returned (Stop() is false exactly when the expiry has already fired and its callback is waiting for the mutex — the callback must then find the timer stopped, or T1-init survives the INIT ACK and later reports a handshake failure on an established association)",
+		MinInst: 4,
+		Run: func(c *RuleCtx) {
+			ks := keyer{}
+			for _, tn := range []string{"rtxTimer", "ackTimer"} {
+				st := c.field(tn, "state")
+				for _, mn := range []string{"stop", "close"} {
+					fn := c.Fn(tn + "." + mn)
+					n := 0
+					for _, a := range c.storesInRegion(fn, st) {
+						n++
+						bad := ""
+						for _, f := range localFactsUpTo(a.Instr, fn) {
+							hit := false
+							var walk func(v ssa.Value, d int)
+							walk = func(v ssa.Value, d int) {
+								if v == nil || d > 6 {
+									return
+								}
+								if call, ok := v.(*ssa.Call); ok {
+									if sc := call.Call.StaticCallee(); sc != nil && sc.Name() == "Stop" && sc.Pkg != nil && sc.Pkg.Pkg.Path() == "time" {
+										hit = true
+									}
+								}
+								if in, ok := v.(ssa.Instruction); ok {
+									for _, op := range in.Operands(nil) {
+										if *op != nil {
+											walk(*op, d+1)
+										}
+									}
+								}
+							}
+							walk(f.Cond, 0)
+							if hit {
+								bad = shortValue(c.P, f.Cond)
+							}
+						}
+						c.Check(bad == "", ks.key("state-left-unconditionally:"+tn+"."+mn), c.Pos(a.Instr), "the state store does not depend on timer.Stop()", "the timer leaves the started state only if "+bad+" is true: when the expiry has already fired, the late callback finds it still started, counts an expiry and re-arms")
+					}
+					c.Check(n >= 1, ks.key("state-store:"+tn+"."+mn), c.P.Pos(fn.Pos()), fmt.Sprintf("%d state store(s)", n), tn+"."+mn+" no longer stores a state")
+				}
+			}
+		}})
+
+	register(&Rule{ID: "C06.R9", Props: []string{"C06", "C07"}, Engine: "E3",
+		Title:   "a fragment's abandonment is the message's: chunkPayloadData.abandoned/setAbandoned/setAllInflight read and write the _abandoned and _allInflight flags of the head fragment whenever there is one — an access on the receiver itself is dominated by head == nil (both flags live on the head only; a non-head fragment that consults its own copy is never abandoned and is retransmitted without limit)",
+		MinInst: 2,
+		Run: func(c *RuleCtx) {
+			head := c.field("chunkPayloadData", "head")
+			ks := keyer{}
+			n := 0
+			for _, fname := range []string{"_abandoned", "_allInflight"} {
+				f := c.field("chunkPayloadData", fname)
+				for _, mn := range []string{"chunkPayloadData.abandoned", "chunkPayloadData.setAbandoned", "chunkPayloadData.setAllInflight"} {
+					fn := c.P.Fn(mn)
+					if fn == nil {
+						continue
+					}
+					forEachInstr(fn, func(in ssa.Instruction) {
+						fa, ok := in.(*ssa.FieldAddr)
+						if !ok || fieldOf(fa.X.Type(), fa.Field) != f {
+							return
+						}
+						if _, isParam := fa.X.(*ssa.Parameter); !isParam {
+							return // accessed through the head (or a value chosen between head and self)
+						}
+						n++
+						okD := DominatedByExt(in, CmpCond(token.EQL, IsLoadOf(head), isNilConst))
+						c.Check(okD, ks.key("flag-on-self-only-without-head:"+fname+"@"+mn), c.Pos(in), "the receiver's own "+fname+" is used only when it has no head", mn+" uses the receiver's own "+fname+" although it may be a non-head fragment (the flag is kept on the head): the fragment's abandonment is misjudged")
+					})
+				}
+			}
+			c.Check(n >= 2, "self-accesses", "", fmt.Sprintf("%d accesses on the receiver examined", n), "fewer than two direct accesses found")
+		}})
+}
